@@ -663,3 +663,38 @@ Proof.
   - apply (sc_undedup alts []).
   - apply sc_sub_voters_incl; [apply dedup_NoDup|]. intros x. apply dedup_In.
 Qed.
+
+(* ============================================================================================== *)
+(* 9. a sufficient criterion for reuse (C19): every pair is monotone along the sequence           *)
+(* ============================================================================================== *)
+Lemma changes_negb l : changes (map negb l) = changes l.
+Proof. rewrite <- (changes_xorb true l). f_equal. Qed.
+
+Lemma sorted_map_bool {T} (p : T -> bool) (v : bool) (s : list T) :
+  StronglySorted (fun o1 o2 => p o1 = v -> p o2 = v) s ->
+  StronglySorted (fun x y => x = true -> y = true) (map (fun o => Bool.eqb (p o) v) s).
+Proof.
+  induction 1 as [|o t Ht IH Hall]; [constructor|]. cbn [map]. constructor; [assumption|].
+  rewrite Forall_forall in *. intros y Hy. apply in_map_iff in Hy. destruct Hy as (o' & <- & Ho').
+  intros E. apply eqb_prop in E. rewrite (Hall o' Ho' E). apply eqb_reflx.
+Qed.
+
+Lemma changes_eqb_const v l : changes (map (fun x => Bool.eqb x v) l) = changes l.
+Proof.
+  destruct v.
+  - rewrite (map_ext _ (fun x => x)); [now rewrite map_id|]. intros []; reflexivity.
+  - rewrite (map_ext _ negb); [apply changes_negb|]. intros []; reflexivity.
+Qed.
+
+(* if for every pair (a,b) the voters preferring a to b (or those preferring b to a) form a final
+   segment of s, then s is a single-crossing sequence *)
+Theorem sc_seq_of_monotone alts s :
+  (forall a b, In a alts -> In b alts -> a <> b ->
+     exists v : bool, StronglySorted (fun o1 o2 => prefers o1 a b = v -> prefers o2 a b = v) s) ->
+  single_crossing_seq alts s.
+Proof.
+  intros H a b Ha Hb Hne. destruct (H a b Ha Hb Hne) as (v & Hs).
+  rewrite switches_changes. apply (sorted_map_bool (fun o => prefers o a b)) in Hs.
+  apply changes_sorted in Hs. rewrite <- map_map with (g := fun x => Bool.eqb x v) in Hs.
+  now rewrite changes_eqb_const in Hs.
+Qed.
